@@ -1,7 +1,8 @@
 /-! # C15 — model of `construct-pipeline`, `pipeline-duplicate-buffers`, `unroll-pipeline`
 
 Mirrors `snaxc/transforms/pipeline/{construct_pipeline,pipeline_duplicate_buffers,unroll_pipeline}.py`
-WITH fix F16 (static guard in `ConstructPipeline`: constant `lb = 0`, `step = 1`, constant `ub ≥ stages - 1`).
+WITH fix F16 (static guard in `ConstructPipeline`: constant `lb = 0`, `step = 1`, constant `ub ≥ stages - 1`)
+and fix FC15b (`ConstructPipeline` declines a body in which anything but the yield follows the stages).
 
 A loop body is a token list (the `scf.yield` is the end of the list). Stage ops carry a tag and the
 memref operands they read / write. No Mathlib. -/
@@ -54,15 +55,16 @@ def skipIdx : List Tok → Except Err (Option (List Tok))
   | rest => .ok (some rest)
 
 /-- `while is_stage_op(next_op)`, one token at a time; `afterOp`: the previous token was a stage op (a barrier now closes
-the stage). `none`: declined (stage not closed by a barrier before the yield). `some (stages, trailing)`: the loop was
-left at a token that is not a stage op; `trailing` (including the ops of an unfinished stage) stays in the loop body
-behind the pipeline op. -/
+the stage). `none`: declined — a stage is not closed by a barrier before the yield, or (fix FC15b) the loop is left at a
+token that is neither a stage op nor the yield (second barrier in a row, index op behind the stages): such tokens would
+stay in the loop body behind the pipeline op. The second component (tokens left in the loop) is therefore always `[]`;
+it is kept so that the statement `NoTrailing` stays expressible (`collect_no_trailing`). -/
 def collect : List Tok → List (List SOp) → List SOp → Bool → Option (List (List SOp) × List Tok)
   | [], stages, cur, _ => if cur.isEmpty then some (stages, []) else none
   | .op o :: rest, stages, cur, _ => collect rest stages (cur ++ [o]) true
   | .sync :: rest, stages, cur, true => collect rest (stages ++ [cur]) [] false
-  | .sync :: rest, stages, cur, false => some (stages, cur.map Tok.op ++ .sync :: rest)
-  | .idx :: rest, stages, cur, _ => some (stages, cur.map Tok.op ++ .idx :: rest)
+  | .sync :: _, _, _, false => none
+  | .idx :: _, _, _, _ => none
 
 structure Pipe where
   stages : List (List SOp)
@@ -113,14 +115,26 @@ def classify (P : List (List SOp)) (v : Opnd) : Except Err Opnd :=
         | _ => .error .notAlloc
     | _, _ => .error .multipleUses
 
-def classifyOp (P : List (List SOp)) (o : SOp) : Except Err SOp := do
-  let i ← o.ins.mapM (classify P)
-  let u ← o.outs.mapM (classify P)
-  pure ⟨o.tag, i, u⟩
+def allOperands (P : List (List SOp)) : List Opnd := P.flatMap fun st => st.flatMap fun o => o.ins ++ o.outs
+
+/-- what `classify` turns an operand into (the operand itself where `classify` fails) -/
+def cget (P : List (List SOp)) (v : Opnd) : Opnd :=
+  match classify P v with
+  | .ok w => w
+  | .error _ => v
+
+/-- the first operand (stage by stage, op by op, inputs then outputs) that PipelineDuplicateBuffers rejects -/
+def firstErr (P : List (List SOp)) : Option Err :=
+  (allOperands P).findSome? fun v =>
+    match classify P v with
+    | .error e => some e
+    | .ok _ => none
 
 def duplicate (P : List (List SOp)) : Except Err (List (List SOp)) :=
   if P.any (fun st => !decide ((stageIns st ++ stageOuts st).Nodup)) then .error .dupOperand
-  else P.mapM (fun st => st.mapM (classifyOp P))
+  else match firstErr P with
+    | some e => .error e
+    | none => .ok (P.map fun st => st.map fun o => ⟨o.tag, o.ins.map (cget P), o.outs.map (cget P)⟩)
 
 /-! ## UnrollPipeline: which stage runs on which index expression -/
 
@@ -307,5 +321,50 @@ def pairOK (tiles : List (Nat × Nat × Bool)) (x y : Nat × Bool × Opnd) : Boo
 
 def safeB (p : Prog) : Bool :=
   (touches p).all fun x => (touches p).all fun y => !(x.2.1 || y.2.1) || pairOK p.tiles x y
+
+end SnaxVerif.Pipeline
+
+namespace SnaxVerif.Pipeline
+
+/-! ## side conditions of the double-buffer refinement (evaluated by the driver; established by `duplicate`, see
+`Lemmas/PipelineDuplicate.lean`) -/
+
+/-- allocation `b` is double buffered somewhere in the program -/
+def dupId (p : Prog) (b : Nat) : Bool := (touches p).any fun t => t.2.2 == .dup b
+
+/-- a copy of a double-buffered allocation -/
+def isDupLoc (p : Prog) : Loc → Bool
+  | .buf b _ => dupId p b
+  | _ => false
+
+/-- a double-buffered allocation is not also used directly, and every read of it is preceded by a write in an
+earlier stage (so within one iteration it is written before it is read) -/
+def dupWF (p : Prog) : Bool :=
+  (touches p).all fun t =>
+    match t.2.2 with
+    | .alloc b => !dupId p b
+    | .dup b => t.2.1 || (touches p).any fun w => w.2.1 && w.2.2 == .dup b && decide (w.1 < t.1)
+    | _ => true
+
+/-- input clause for `duplicate`: what must hold of the ORIGINAL stage operands so that the duplicated program is safe:
+two tile occurrences (one written) are compatible (TilesAligned), and a shared buffer written by two occurrences is written
+in one stage (OneWriterStage) -/
+def pairIn (tiles : List (Nat × Nat × Bool)) (x y : Nat × Bool × Opnd) : Bool :=
+  match x.2.2, y.2.2 with
+  | .tile _, .tile _ => pairOK tiles x y
+  | .alloc b, .alloc b' => !(x.2.1 && y.2.1) || b != b' || x.1 == y.1
+  | .ext b, .ext b' => !(x.2.1 && y.2.1) || b != b' || x.1 == y.1
+  | _, _ => true
+
+def inputOK (tiles : List (Nat × Nat × Bool)) (P : List (List SOp)) : Bool :=
+  (touches ⟨tiles, P⟩).all fun x => (touches ⟨tiles, P⟩).all fun y => !(x.2.1 || y.2.1) || pairIn tiles x y
+
+/-- the input of `duplicate` has no parity-selected operands (they are only introduced by it) -/
+def inputNoDup (P : List (List SOp)) : Bool :=
+  (touches ⟨[], P⟩).all fun t => match t.2.2 with | .dup _ => false | _ => true
+
+/-- the events of one iteration of the original loop -/
+def iterEvents (p : Prog) (n : Nat) : List Ev :=
+  (List.range p.stages.length).flatMap fun k => stageEvents p k n
 
 end SnaxVerif.Pipeline
